@@ -51,10 +51,36 @@ CORPUS = [
 ]
 
 
+def zero_run_cases(T, tier):
+    """Long runs of events that take no time between two timed events (seeded change C12-8: play_tick read at
+    most 256 events per tick, skip_ticks all of them).  Both paths must read the whole run inside one tick,
+    however long: runs of 255/256/257/300/1000 plain commands, command-only loops ([V+1 p3 V-1]90 = 361 fetches),
+    nested command-only loops, a run inside a called subroutine, a run before the first note, a run at the loop
+    point.  The running relative volume makes the number of commands applied visible in the channel variables."""
+    ev = lambda t, p=0, on=0, off=0: (T[t], p, on, off)
+    a, b, c = ev("NOTE", 36, 2, 1), ev("NOTE", 38, 1, 1), ev("NOTE", 40, 2, 0)
+    run = lambda k: [ev("VOL_FINE_REL", 1) if i % 3 else ev("PAN", 1 + i % 3) for i in range(k)]
+    loop = lambda body, n: [ev("LOOP_START")] + body + [ev("LOOP_END", n)]
+    lens = [255, 256, 257, 300] + ([1000, 5000] if tier != "quick" else [])
+    songs = []
+    for k in lens:
+        songs.append(("run-%d" % k, {0: [a] + run(k) + [b, c]}))
+    songs.append(("run-first", {0: run(300) + [a, b]}))
+    songs.append(("loop-90", {0: [a] + loop([ev("VOL_FINE_REL", 1), ev("PAN", 3), ev("VOL_FINE_REL", -1)], 90) + [b, c]}))
+    songs.append(("loop-nested", {0: [a] + loop(loop([ev("VOL_FINE_REL", 1)], 20) + [ev("PAN", 2)], 15) + [b, c]}))
+    songs.append(("run-in-sub", {0: [a, ev("JUMP", 100), b, c], 100: run(280)}))
+    songs.append(("run-at-segno", {0: [a, ev("SEGNO")] + run(300) + [b, c]}))
+    songs.append(("run-in-loop", {0: loop([a] + run(100), 4) + [b]}))
+    for name, song in songs:
+        yield Case("seek 0 1,2,3,4,5,6,7,8,9,10,11,12,13,14 %s" % songgen.render(song), ("zero-run", name), "zero-run")
+
+
 def cases(rng, tier):
     for c in CORPUS:
         yield Case(c, ("corpus",), "corpus")
     T = songgen.event_types()
+    for c in zero_run_cases(T, tier):
+        yield c
     n = 220 if tier == "quick" else 3000
     made = 0
     while made < n:
